@@ -19,12 +19,12 @@ Definition no_lf (s : str) : Prop := forallb (fun x => negb (x =? LF)) s = true.
 Lemma try_at_shape s name rest : try_at s = Some (name, rest) ->
   exists sep ws post nl,
     s = s2l "coding" ++ [sep] ++ ws ++ name ++ post ++ [nl] ++ rest /\
-    (sep = cCOLONe \/ sep = cEQe) /\ forallb is_space ws = true /\
+    (sep = cCOLONe \/ sep = cEQe) /\ forallb is_blank_e ws = true /\
     name <> [] /\ forallb is_namechar_e name = true /\ no_lf post.
 Proof.
   unfold try_at. destruct (strip_prefix (s2l "coding") s) as [[|e r1]|] eqn:Ep; try discriminate.
   apply strip_prefix_spec in Ep. destruct ((e =? cCOLONe) || (e =? cEQe)) eqn:Es; [|discriminate].
-  destruct (span_e is_space r1) as [ws r2] eqn:E1. destruct (span_e is_namechar_e r2) as [nm r3] eqn:E2.
+  destruct (span_e is_blank_e r1) as [ws r2] eqn:E1. destruct (span_e is_namechar_e r2) as [nm r3] eqn:E2.
   destruct nm as [|n0 nm']; [discriminate|].
   destruct (span_e (fun x => negb (x =? LF)) r3) as [post r4] eqn:E3. destruct r4 as [|nl rest']; [discriminate|].
   intros [= <- <-]. apply span_e_app in E1 as [-> H1]. apply span_e_app in E2 as [-> H2]. apply span_e_app in E3 as [-> H3].
@@ -52,13 +52,42 @@ Qed.
 Theorem coding_comment_shape s name rest : coding_match s = Some (name, rest) ->
   exists pre sep ws post nl,
     s = [cHASHe] ++ pre ++ s2l "coding" ++ [sep] ++ ws ++ name ++ post ++ [nl] ++ rest /\
-    no_lf pre /\ (sep = cCOLONe \/ sep = cEQe) /\ forallb is_space ws = true /\
+    no_lf pre /\ (sep = cCOLONe \/ sep = cEQe) /\ forallb is_blank_e ws = true /\
     name <> [] /\ forallb is_namechar_e name = true /\ no_lf post.
 Proof.
   unfold coding_match. destruct s as [|c r]; [discriminate|]. destruct (c =? cHASHe) eqn:Ec; [|discriminate].
   apply N.eqb_eq in Ec. subst c. intros H. apply find_last_shape in H as (pre & s & -> & Hp & Ht).
   apply try_at_shape in Ht as (sep & ws & post & nl & -> & Hs & Hw & Hn & Hnc & Hpost).
   exists pre, sep, ws, post, nl. repeat split; assumption.
+Qed.
+
+(* the whole declaration stands on the first line: nothing of what the pattern consumes before the final line feed is a
+   line feed (true since the blanks after the colon are blanks and tabs only, fix 099dbc7) *)
+Lemma blank_no_lf ws : forallb is_blank_e ws = true -> no_lf ws.
+Proof.
+  unfold no_lf. induction ws as [|c r IH]; [reflexivity|]. cbn [forallb]. intros H. apply andb_true_iff in H as [Hc Hr].
+  rewrite (IH Hr), andb_true_r. unfold is_blank_e in Hc. apply orb_true_iff in Hc as [Hc|Hc]; apply N.eqb_eq in Hc; subst c; reflexivity.
+Qed.
+
+Lemma namechar_no_lf nm : forallb is_namechar_e nm = true -> no_lf nm.
+Proof.
+  unfold no_lf. induction nm as [|c r IH]; [reflexivity|]. cbn [forallb]. intros H. apply andb_true_iff in H as [Hc Hr].
+  rewrite (IH Hr), andb_true_r. destruct (c =? LF) eqn:E; [|reflexivity]. apply N.eqb_eq in E. subst c. vm_compute in Hc. discriminate.
+Qed.
+
+Lemma no_lf_app a b : no_lf a -> no_lf b -> no_lf (a ++ b).
+Proof. unfold no_lf. intros Ha Hb. rewrite forallb_app, Ha, Hb. reflexivity. Qed.
+
+Theorem coding_comment_on_first_line s name rest : coding_match s = Some (name, rest) ->
+  exists line nl, s = line ++ [nl] ++ rest /\ no_lf line.
+Proof.
+  intros H. apply coding_comment_shape in H as (pre & sep & ws & post & nl & -> & Hp & Hs & Hw & _ & Hn & Hpost).
+  exists ([cHASHe] ++ pre ++ s2l "coding" ++ [sep] ++ ws ++ name ++ post), nl. split.
+  - rewrite <- !app_assoc. reflexivity.
+  - repeat apply no_lf_app; try assumption; try reflexivity.
+    + destruct Hs as [-> | ->]; reflexivity.
+    + apply blank_no_lf. exact Hw.
+    + apply namechar_no_lf. exact Hn.
 Qed.
 
 (* text that does not start with "#" declares nothing *)
